@@ -837,6 +837,8 @@ class ConfigParser(object):
     try:
       convert = known_properties.get(property_name, default)
       converted = convert(v) if convert is default else _number(convert, v)
+      if converted != converted or converted in (float("inf"), float("-inf")):
+        raise ValueError("not a finite number")
     except ValueError:
       raise ConfigParserException("Error when parsing [Species] section. Could not convert the value of '{}' = '{}'".format(property_name, v))
     return converted
